@@ -57,6 +57,8 @@ class ParseUnit(Unit):
         return hs
     def twin_of(self, ctx, prog, fn):
         return 'twin_from_str_ascii'
+    def fallback_harnesses(self, ctx, prog, fns):
+        return [('twin_from_str_ascii', 'from_str')]
     def run(self, ctx):
         self._first = None
         self.kani_always = (ctx.pid == 'C12')
@@ -93,12 +95,15 @@ fn expected(s: &str) -> Result<En, %s> {
 }
 fn main() {
     let s: &str = %s;
+    let c0 = PERR_CALLS.load(core::sync::atomic::Ordering::Relaxed);
     let got = En::from_str(s);
+    let calls = PERR_CALLS.load(core::sync::atomic::Ordering::Relaxed) - c0;
+    let want_calls = if got.is_err() && %s { 1 } else { 0 };
     let got2 = En::try_from(s);
     let exp = expected(s);
-    println!("from_str({:?}) = {:?}; try_from = {:?} (expected {:?})", s, got, got2, exp);
-    if got == exp && got2 == exp { println!("REPLAY-OK") } else { println!("REPLAY-FAIL observed != expected") }
-}''' % (prog.name, inst, spec_parse.FOLD_EQ, err_ty, spec_parse.rust_expected(prog, inst), rs_str(s))
+    println!("from_str({:?}) = {:?}; try_from = {:?} (expected {:?}); parse_err_fn was called {} time(s) (expected {})", s, got, got2, exp, calls, want_calls);
+    if got == exp && got2 == exp && calls == want_calls { println!("REPLAY-OK") } else { println!("REPLAY-FAIL observed != expected") }
+}''' % (prog.name, inst, spec_parse.FOLD_EQ, err_ty, spec_parse.rust_expected(prog, inst), rs_str(s), 'true' if (prog.parse_err_fn and dv is None) else 'false')
         return main, {'input': s}
     def candidate_replay(self, ctx, prog, o):
         from .. import lreplay
